@@ -49,6 +49,8 @@ def annotate(case, impl_lines):
         done = {t[5:] for t in toks if t.startswith("done:")}
         if fs[0] == "tok" and pending and not (pending & done):
             op = "tok hold"
+        if fs[0] == "closeset" and toks[:1] != ["blocked"]:
+            op = op + " pass"      # the restarted applier took the stop signal before the buffered item (Go's select)
         if fs[0] == "sweeprw":
             # which of the two keys the sweep visited first (Go map order), and whether the rewrite happened
             first = [t.split(":")[1] for t in toks if t.startswith("rwset:")]
